@@ -28,11 +28,26 @@ enum Re {
 }
 
 fn esc(c: u32) -> String {
+    if c == 0x0a { return "\\n".into(); }
+    if c == 0x09 { return "\\t".into(); }
     let ch = char::from_u32(c).unwrap();
     if "\\^$.|?*+()[]{}-/".contains(ch) { format!("\\{ch}") } else { ch.to_string() }
 }
 
 impl Re {
+    /// can a match begin with the white-space character `c`?  (negated classes are rendered with `\\s` excluded)
+    fn can_start(&self, c: u32) -> bool {
+        match self {
+            Re::Lit(v) => v.first() == Some(&c),
+            Re::Cls(neg, rs) => !*neg && rs.iter().any(|(a, b)| *a <= c && c <= *b),
+            Re::Seq(a, b) => a.can_start(c) || (a.nullable() && b.can_start(c)),
+            Re::Alt(a, b) => a.can_start(c) || b.can_start(c),
+            Re::Star(a) | Re::Plus(a) | Re::Opt(a) => a.can_start(c),
+            Re::Rep(_, n, a) => *n > 0 && a.can_start(c),
+            Re::Alts(v) => v.iter().any(|(_, r)| r.can_start(c)),
+            Re::Prop(_) => false,
+        }
+    }
     fn nullable(&self) -> bool {
         match self {
             Re::Lit(v) => v.is_empty(),
@@ -185,7 +200,15 @@ const PUNCT: [u32; 7] = [0x2b, 0x2d, 0x28, 0x29, 0x3b, 0x2c, 0x1f600];
 /// nine pairwise non-adjacent code points: a class over them has 9 ranges (large character set)
 const WIDE: [u32; 9] = [0x28, 0x2b, 0x2d, 0x30, 0x3b, 0x61, 0x63, 0xe9, 0x3bb];
 
+fn extras_chars(shape: usize) -> Vec<u32> {
+    match shape { 1 | 3 => vec![0x20, 0x0a], 2 => vec![0x20], 4 => vec![0x20, 0x09], _ => vec![0x20, 0x0a, 0x09] }
+}
+
 impl TokSet {
+    /// the extras characters some token can begin with (line-break tokens next to white-space extras)
+    fn overlap_chars(&self) -> Vec<u32> {
+        extras_chars(self.extras).into_iter().filter(|c| self.toks.iter().any(|t| t.re.can_start(*c))).collect()
+    }
     fn ser(&self) -> String {
         let mut s = format!("w{}x{}", self.word.map(|w| w.to_string()).unwrap_or("-".into()), self.extras);
         for t in &self.toks { s.push_str(&format!(";{},{},{}", t.prec, t.is_string as u8 + 2 * t.immediate as u8 + 4 * t.ci as u8, t.re.ser())); }
@@ -437,6 +460,23 @@ fn rand_set(rng: &mut Rng) -> TokSet {
     { let mut seen: Vec<(String, bool, bool, i32, bool)> = Vec::new();
       toks.retain(|t| { let k = (t.re.ser(), t.is_string, t.ci, t.prec, t.immediate); if seen.contains(&k) { false } else { seen.push(k); true } }); }
     let extras = if rng.chance(1, 2) { 0 } else { rng.range(1, EXTRAS_SHAPES - 1) };
+    // tokens made of characters that are ALSO extras (a line-break token next to /\\s/): the lexer must return the
+    // completed token before it skips further extras, and skip it where it is not the chosen token
+    // (only next to tokens of ONE precedence: with mixed precedences the overtake of DIFFERENCE 1 interferes)
+    if !with_word && !toks.iter().any(|t| matches!(t.re, Re::Alts(_))) && toks.iter().all(|t| t.prec == toks[0].prec) && rng.chance(1, 2) {
+        let e = *rng.pick(&extras_chars(extras));
+        let (re, is_string) = match rng.below(5) {
+            0 => (Re::Plus(Box::new(Re::Cls(false, vec![(e, e)]))), false),
+            1 => (Re::Lit(vec![e, e]), rng.chance(1, 2)),
+            2 => (Re::Lit(vec![e]), false),
+            _ => (Re::Lit(vec![e]), true),
+        };
+        if !toks.iter().any(|t| t.re.ser() == re.ser()) {
+            let at = rng.below(toks.len() + 1);
+            let p0 = toks[0].prec;
+            toks.insert(at, Tok { prec: p0, is_string, re, immediate: false, ci: false });
+        }
+    }
     let mut word = None;
     if with_word {
         let w = rng.below(toks.len() + 1);
@@ -659,7 +699,9 @@ fn sample_re(re: &Re, rng: &mut Rng, out: &mut Vec<u32>) {
 
 fn rand_mode_set(rng: &mut Rng) -> ModeSet {
     let base = loop { let b = rand_set(rng); if b.word.is_none() { break b; } };
-    let mut toks: Vec<Tok> = base.toks.into_iter().filter(|t| match &t.re { Re::Lit(v) => !(v.len() == 1 && (v[0] == 0x28 || v[0] == 0x29)), Re::Alts(_) => false, _ => true }).collect();
+    let mut toks: Vec<Tok> = base.toks.into_iter().filter(|t| match &t.re { Re::Lit(v) => !(v.len() == 1 && (v[0] == 0x28 || v[0] == 0x29)), Re::Alts(_) => false, _ => true })
+        // tokens that begin with an extras character belong to the token-soup family (separator-aware model)
+        .filter(|t| ![0x20u32, 0x0a, 0x09].iter().any(|c| t.re.can_start(*c))).collect();
     if toks.len() < 2 { toks.push(Tok { prec: 0, is_string: true, re: Re::Lit(vec![0x61]), immediate: false, ci: false }); toks.push(Tok { prec: 0, is_string: true, re: Re::Lit(vec![0x62]), immediate: false, ci: false }); }
     if toks.len() > 10 { toks.truncate(10); }
     for t in toks.iter_mut() { t.immediate = false; }
@@ -1012,7 +1054,24 @@ fn main() {
                 if left == 0 { return; }
                 for c in syms { s.push(*c); rec(s, left - 1, syms, f); s.pop(); }
             }
-            rec(&mut s, full_len, &enum_syms, f);
+            let over = ts.overlap_chars();
+            if over.is_empty() { rec(&mut s, full_len, &enum_syms, f); }
+            else {
+                // the white-space characters tokens can begin with join the enumerated alphabet, and longer
+                // strings are made of short words separated by runs of white space
+                let mut es = enum_syms.clone();
+                for c in &over { if !es.contains(c) { es.push(*c); } }
+                rec(&mut s, full_len, &es, f);
+                let ws = extras_chars(ts.extras);
+                for _ in 0..n_long {
+                    let mut v: Vec<u32> = Vec::new();
+                    for _ in 0..srng.range(2, 6) {
+                        for _ in 0..srng.range(1, 2) { v.push(*srng.pick(&ALPHA)); }
+                        for _ in 0..srng.range(0, 3) { let from_over = srng.chance(1, 2); v.push(*srng.pick(if from_over { &over[..] } else { &ws[..] })); }
+                    }
+                    f(&v);
+                }
+            }
             if ts.toks.iter().any(|t| t.ci || t.re.ser().contains('U')) {
                 // case-insensitive tokens: upper-case letters (and mixed case) in the enumerated alphabet
                 let upper: Vec<u32> = vec![0x41, 0x42, 0x61, 0x62, 0xc9, 0xe9, 0x39b, 0x30, 0x20];
